@@ -9,10 +9,11 @@
        wrap of the result type; / is Z.quot, % is Z.rem (truncation toward 0);
      - & | ^ &^ >> % need no wrap (on in-range operands the result is in range);
      - a conversion T(x) is wrap_T x unless every value of x's type fits in T;
-     - an `error` result is a gerr: ENil, or EErr "<leading identifier of the
-       constructor call>".
+     - an `error` result is a gerr: ENil, or EErr "<callee of the constructor
+       call without its final method name>" (X.Errorf(..) gives "X"); message
+       texts and arguments are not part of the value.
    All wraps are stated with literal constants so that `lia` (with the
-   Z.div_mod_to_equations hook) can reason about them directly.
+   Z.to_euclidean_division_equations hook) can reason about them directly.
    Style: stdlib only. *)
 From Coq Require Export ZArith Bool String List Lia.
 From Coq Require Import ZifyBool.
@@ -183,6 +184,76 @@ Lemma bits_len64_le_64 x : 0 <= x <= max_u64 -> bits_len64 x <= 64.
 Proof.
   intros Hx. unfold bits_len64. destruct (x <=? 0) eqn:E; [lia|].
   assert (Z.log2 x < 64) by (apply Z.log2_lt_pow2; lia). lia.
+Qed.
+
+Lemma bits_tz64_range x : 0 <= x <= max_u64 -> 0 <= bits_tz64 x <= 64.
+Proof.
+  intros Hx. unfold bits_tz64. destruct (x =? 0) eqn:E; [lia|].
+  assert (Hxp : 0 < x) by lia.
+  split; [apply Z.log2_nonneg|].
+  set (l := Z.land x (- x)).
+  destruct (Z_le_gt_dec l 0) as [Hl0|Hlp].
+  - rewrite Z.log2_nonpos by lia. lia.
+  - assert (Hb : Z.testbit l (Z.log2 l) = true) by (apply Z.bit_log2; lia).
+    unfold l in Hb at 1. rewrite Z.land_spec in Hb. apply andb_true_iff in Hb as [Hbx _].
+    assert (Z.log2 l <= Z.log2 x).
+    { destruct (Z_le_gt_dec (Z.log2 l) (Z.log2 x)); [assumption|].
+      rewrite Z.bits_above_log2 in Hbx by lia. discriminate. }
+    assert (Z.log2 x < 64) by (apply Z.log2_lt_pow2; lia). lia.
+Qed.
+
+(* m odd => m & -m = 1 *)
+Lemma land_opp_odd q : Z.land (2 * q + 1) (- (2 * q + 1)) = 1.
+Proof.
+  apply Z.bits_inj'. intros n Hn. rewrite Z.land_spec.
+  destruct (Z.eq_dec n 0) as [->|Hnz].
+  - rewrite Z.bits_opp by lia. replace (Z.pred (2 * q + 1)) with (2 * q) by lia.
+    rewrite Z.testbit_odd_0, Z.testbit_even_0. reflexivity.
+  - replace n with (Z.succ (n - 1)) by lia.
+    rewrite Z.bits_opp by lia. replace (Z.pred (2 * q + 1)) with (2 * q) by lia.
+    rewrite Z.testbit_odd_succ, Z.testbit_even_succ by lia.
+    change 1 with (2 * 0 + 1). rewrite Z.testbit_odd_succ by lia. rewrite Z.bits_0.
+    apply andb_negb_r.
+Qed.
+
+(* the number of trailing zero bits of 2^s * odd is s *)
+Lemma bits_tz64_pow2_odd s q : 0 <= s -> bits_tz64 (2 ^ s * (2 * q + 1)) = s.
+Proof.
+  intros Hs. unfold bits_tz64.
+  assert (Hp : 0 < 2 ^ s) by (apply Z.pow_pos_nonneg; lia).
+  destruct (2 ^ s * (2 * q + 1) =? 0) eqn:E; [apply Z.eqb_eq, Z.mul_eq_0 in E; lia|].
+  replace (- (2 ^ s * (2 * q + 1))) with (Z.shiftl (- (2 * q + 1)) s)
+    by (rewrite Z.shiftl_mul_pow2 by lia; ring).
+  replace (2 ^ s * (2 * q + 1)) with (Z.shiftl (2 * q + 1) s)
+    by (rewrite Z.shiftl_mul_pow2 by lia; ring).
+  rewrite <- Z.shiftl_land, land_opp_odd.
+  rewrite Z.shiftl_mul_pow2 by lia. rewrite Z.mul_1_l. apply Z.log2_pow2. lia.
+Qed.
+
+(* key = 2^t * odd  ==>  key xor (key-1) = 2^(t+1) - 1 *)
+Lemma lxor_pred_pow2_odd t r : 0 <= t -> 0 <= r ->
+  Z.lxor (2 ^ t * (2 * r + 1)) (2 ^ t * (2 * r + 1) - 1) = 2 ^ (t + 1) - 1.
+Proof.
+  intros Ht Hr.
+  assert (Hp : 0 < 2 ^ t) by (apply Z.pow_pos_nonneg; lia).
+  assert (H2 : 2 ^ (t + 1) = 2 * 2 ^ t) by (rewrite Z.pow_add_r by lia; change (2 ^ 1) with 2; lia).
+  assert (E1 : 2 ^ t * (2 * r + 1) = Z.lor (Z.shiftl r (t + 1)) (2 ^ t)).
+  { rewrite lor_shiftl_low by lia. rewrite H2. lia. }
+  assert (E2 : 2 ^ t * (2 * r + 1) - 1 = Z.lor (Z.shiftl r (t + 1)) (Z.ones t)).
+  { rewrite Z.ones_equiv. rewrite lor_shiftl_low by lia. rewrite H2. lia. }
+  rewrite E2, E1.
+  replace (2 ^ (t + 1) - 1) with (Z.ones (t + 1)) by (rewrite Z.ones_equiv; lia).
+  apply Z.bits_inj'. intros n Hn.
+  rewrite Z.lxor_spec, !Z.lor_spec.
+  destruct (Z_lt_ge_dec n (t + 1)).
+  - rewrite Z.shiftl_spec_low by lia. rewrite (Z.ones_spec_low (t + 1)) by lia. cbn [orb].
+    rewrite Z.pow2_bits_eqb by lia.
+    destruct (Z.eq_dec n t) as [->|].
+    + rewrite Z.eqb_refl, Z.ones_spec_high by lia. reflexivity.
+    + rewrite (proj2 (Z.eqb_neq t n)) by lia. rewrite Z.ones_spec_low by lia. reflexivity.
+  - rewrite (Z.ones_spec_high (t + 1)) by lia. rewrite Z.pow2_bits_eqb by lia.
+    rewrite (proj2 (Z.eqb_neq t n)) by lia.
+    rewrite (Z.ones_spec_high t n) by lia. rewrite !orb_false_r. apply xorb_nilpotent.
 Qed.
 
 (* ------------------------------------------------------------ bool helpers *)
